@@ -33,6 +33,7 @@ LAYOUTS = {
     "no final newline, last line is a comment": [F_("A", ["a"]), blank(), F_("B", ["b"]), {"type": "comment", "tokens": [("COMMENT", symstr.mk([("lit", "#"), ("atom", "note", "line")]))]}],
     "no final newline, last field has no value": [F_("A", ["a"]), blank(), {"type": "field", "key": "B", "lines": [], "tokens": [("KEY", symstr.lit("B")), ("COLON", symstr.lit(":"))]}],
     "after wrap_and_sort (comments directly under the root)": ("wrap", [Cm("top"), blank(), F_("A", ["a"]), blank(), Cm("mid"), F_("B", ["b"]), blank(), F_("C", ["c"])]),
+    "after wrap_and_sort, ending in a comment without final newline": ("wrap", [F_("A", ["a"]), blank(), {"type": "comment", "tokens": [("COMMENT", symstr.mk([("lit", "#"), ("atom", "tail", "line")]))]}]),
 }
 
 
@@ -134,9 +135,15 @@ def run(tier):
                 inner.setdefault(pi, []).append(symstr.show(r["tokens"][0][1]))
         np_ = len(base)
         ops = [("add",)] + [("insert", i) for i in range(0, np_ + 2)] + [("remove", i) for i in range(0, np_ + 2)]
+        ops += [("add", "empty-value")] + [("insert", i, "empty-value") for i in range(0, np_ + 1)]
         for op in ops:
             n += 1
-            label = "%s :: %s" % (lname, "%s(%s)" % (op[0], ", ".join(map(str, op[1:]))))
+            empty_fill = op[-1] == "empty-value"
+            if empty_fill:
+                op = op[:-1]
+            label = "%s :: %s" % (lname, "%s(%s)%s" % (op[0], ", ".join(map(str, op[1:])), " then set(X, \"\")" if empty_fill else ""))
+            fill_val = symstr.lit("") if empty_fill else symstr.atom("x", "line")
+            fill_model = ("X", "") if empty_fill else ("X", "<x>")
             pdoc, errs, st, mod = db.parse_deb822(F, toks)
             if pdoc is None or errs != ("abs", "strvec", 0):
                 C.ob("C05/parse", label, False, "the symbolic document does not parse cleanly (%s)" % (errs,))
@@ -159,10 +166,10 @@ def run(tier):
             try:
                 if op[0] == "add":
                     res = I.inline(F.fn(P + "Deb822::add_paragraph"), [("ref", (("T", "doc"),))], s0)
-                    model.append([("X", "<x>")])
+                    model.append([fill_model])
                 elif op[0] == "insert":
                     res = I.inline(F.fn(P + "Deb822::insert_paragraph"), [("ref", (("T", "doc"),)), hirai.mkint(op[1])], s0)
-                    model.insert(min(op[1], len(model)), [("X", "<x>")])
+                    model.insert(min(op[1], len(model)), [fill_model])
                 else:
                     res = I.inline(F.fn(P + "Deb822::remove_paragraph"), [("ref", (("T", "doc"),)), hirai.mkint(op[1])], s0)
                     if op[1] < len(model):
@@ -170,7 +177,7 @@ def run(tier):
                 if op[0] in ("add", "insert") and len(res) == 1 and res[0][0] == OK:
                     # fill the returned paragraph
                     s1 = res[0][2].setroot(("T", "newp"), I.deref_val(res[0][2], res[0][1]))
-                    res = I.inline(F.fn(P + "Paragraph::set"), [("ref", (("T", "newp"),)), symstr.lit("X"), symstr.atom("x", "line")], s1)
+                    res = I.inline(F.fn(P + "Paragraph::set"), [("ref", (("T", "newp"),)), symstr.lit("X"), fill_val], s1)
             except hirai.Violation as e:
                 C.ob("C05/analysis", label, False, str(e))
                 continue
